@@ -185,6 +185,44 @@ fn build_product_into<T: Flavor>(pool: &mut Pool<T>, types: &[&str], mk: impl Fn
     }
 }
 
+/// Values that a "semantic" comparison (numeric versions, case folding, Unicode normalisation,
+/// trimming, path normalisation, repeated decoding) would identify although their canonical strings
+/// differ — and a few that really are one value. Each of them in each field, the other fields fixed.
+pub const NEAR: [&str; 58] = [
+    "1", "01", "1.0", "1.00", "+1", "1.", "1.10", "1.9", "1.1x", "1.1", "1e1", "10", "1.01", "1.1.0", "v1", "V1", "1-", "\u{661}", "\u{FF11}", "a", "A", "\u{FF41}", "é", "e\u{301}", "É", " a", "a ", "a\t", "a\u{0}", "a\u{200B}",
+    "a/", "/a", "a//b", "a/b", "a/./b", "a/../b", "a\\b", "a%2Fb", "a%2fb", "%61", "%2561", "-a", "a-", "a_b", "a-b", "a.b", "ß", "ss", "SS", "ǆ", "ǅ", "Ǆ", "ﬁ", "fi", "\u{212A}", "k", "K", "a+b",
+];
+
+fn build_near_into<T: Flavor>(pool: &mut Pool<T>, types: &[&str], mk: impl Fn(&str, usize) -> Option<T>) {
+    let mut i = 0usize;
+    for ty in types {
+        for field in 0..5usize {
+            for v in NEAR {
+                i += 1;
+                let Some(pt) = mk(ty, i) else { continue };
+                let mut f = ["", "n", "", ""];
+                let mut qs: Vec<(&str, &str)> = Vec::new();
+                if field < 4 {
+                    f[field] = v;
+                } else {
+                    qs.push(("k", v));
+                }
+                // maven needs a namespace
+                if *ty == "maven" && field != 0 {
+                    f[0] = "g";
+                }
+                let mut b = GenericPurlBuilder::new(pt, f[1]).with_namespace(f[0]).with_version(f[2]).with_subpath(f[3]);
+                for (k, v) in &qs {
+                    b = b.with_qualifier(*k, *v).expect("valid key");
+                }
+                if let Ok(Ok(p)) = guarded(|| b.build()) {
+                    pool.add(p, || json!({"built": {"ty": ty, "ns": f[0], "name": f[1], "version": f[2], "subpath": f[3], "quals": qs}}));
+                }
+            }
+        }
+    }
+}
+
 /// All-pairs oracle on one pool.
 pub fn check_pool<T: Flavor + Sync + Send>(pool: &Pool<T>, acc: &mut Acc) -> Value {
     let n = pool.values.len();
@@ -310,6 +348,7 @@ pub fn run(tier: Tier) -> (Acc, Vec<Value>) {
         let mut pool: Pool<String> = Pool::new("String");
         parse_lens_into(&mut pool, &[("A1a", dn(3, 4)), ("A1b", dn(3, 4)), ("A5b", dn(3, 4)), ("A6", dn(3, 4)), ("A3", dn(3, 4)), ("A10", dn(2, 3))], None);
         build_product_into(&mut pool, &["t", "T.1+x-"], |ty, _| Some(ty.to_owned()), tier);
+        build_near_into(&mut pool, &["t"], |ty, _| Some(ty.to_owned()));
         // keys and types at the edge of validity (accepted only by a broken implementation; if they are
         // accepted, the resulting values must still obey C19, reflexivity included)
         for s in ["pkg:t/n?\u{212A}=v", "pkg:t/n?k=v", "pkg:t/n?K=v", "pkg:t/n?é=v", "pkg:t/n?É=v", "pkg:t/n?\u{130}=v", "pkg:\u{212A}/n", "pkg:K/n", "pkg:k/n"] {
@@ -333,6 +372,7 @@ pub fn run(tier: Tier) -> (Acc, Vec<Value>) {
         let mut pool: Pool<purl::SmallString> = Pool::new("SmallString");
         parse_lens_into(&mut pool, &[("A1b", dn(3, 4)), ("A5b", dn(3, 4))], None);
         build_product_into(&mut pool, &["t", "a-rather-long-type-name-that-does-not-fit-inline"], |ty, _| Some(purl::SmallString::from(ty)), Tier::Quick);
+        build_near_into(&mut pool, &["t"], |ty, _| Some(purl::SmallString::from(ty)));
         reps.push(check_pool(&pool, &mut acc));
     }
     {
@@ -340,6 +380,7 @@ pub fn run(tier: Tier) -> (Acc, Vec<Value>) {
         let mut pool: Pool<Cow<'static, str>> = Pool::new("Cow");
         build_product_into(&mut pool, &["t", "T"], |ty, i| Some(if i % 2 == 0 { Cow::Borrowed(crate::builders::intern(ty)) } else { Cow::Owned(ty.to_owned()) }), Tier::Quick);
         build_product_into(&mut pool, &["t", "T"], |ty, i| Some(if i % 2 == 1 { Cow::Borrowed(crate::builders::intern(ty)) } else { Cow::Owned(ty.to_owned()) }), Tier::Quick);
+        build_near_into(&mut pool, &["t"], |ty, i| Some(if i % 2 == 1 { Cow::Borrowed(crate::builders::intern(ty)) } else { Cow::Owned(ty.to_owned()) }));
         reps.push(check_pool(&pool, &mut acc));
     }
     #[cfg(feature = "typed")]
@@ -349,6 +390,7 @@ pub fn run(tier: Tier) -> (Acc, Vec<Value>) {
         parse_lens_into(&mut pool, &[("A1b", dn(3, 4))], Some(vec!["pkg:npm/", "pkg:maven/x/", "pkg:pypi/"]));
         parse_lens_into(&mut pool, &[("A5b", dn(3, 4))], Some(vec!["pkg:npm/n?", "pkg:gem/n?"]));
         build_product_into(&mut pool, &["npm", "pypi", "maven"], |ty, _| <purl::PackageType as Flavor>::mk(ty), Tier::Quick);
+        build_near_into(&mut pool, &["npm", "pypi", "nuget", "maven", "golang"], |ty, _| <purl::PackageType as Flavor>::mk(ty));
         reps.push(check_pool(&pool, &mut acc));
     }
     reps.push(check_keys(&mut acc));
